@@ -159,3 +159,11 @@ def h1(ctx: Ctx) -> None:
     from .c18 import check_registries
 
     check_registries(ctx)
+
+
+@rule("C11.H2", "mechanism shared with C05: matching rounds are started only where their fills are reported (the run loop's handling of an order), and a round hands back exactly the fills it made", "T2 who-may-call + T10 (same rules as C05.R3, C05.R5)", floor=2)
+def h2(ctx: Ctx) -> None:
+    from .c05 import r3 as settle_rule, r5 as returned_rule
+
+    settle_rule(ctx)
+    returned_rule(ctx)
